@@ -180,9 +180,9 @@ Fixpoint mon_pts (reg : registry) (cons : bool) (ops : list hop) (p0 p1 : list (
   match ops, p0, p1 with
   | [], [], [] => true
   | o :: r, a :: r0, b :: r1 =>
-      (* a node holding nothing the registry defines shows the same port types; otherwise each is the old one
+      (* a node whose operation the registry does not define shows the same port types; otherwise each is the old one
          with exactly its resolvable opaque types replaced *)
-      (if hop_all (untouchable_op reg) o then list_eqb (option_eqb ty_eqb) a b
+      (if hop_holds (untouchable_op reg) o then list_eqb (option_eqb ty_eqb) a b
        else list_eqb (port_type_rel_b reg) a b) &&
       implb cons (list_eqb (option_eqb obound_eqb) (map opt_tbound b) (map opt_tbound a)) &&
       mon_pts reg cons r r0 r1
@@ -191,7 +191,7 @@ Fixpoint mon_pts (reg : registry) (cons : bool) (ops : list hop) (p0 p1 : list (
 Definition mon_whole (reg : registry) (w : whole_obs) : bool :=
   let cons := consistent_hugr reg (w_h0 w) in
   w_self w &&
-  rhugr_b reg (w_h0 w) (w_h1 w) &&                              (* frame + exactly the defined operations, every depth *)
+  rhugr_b reg (w_h0 w) (w_h1 w) &&                              (* frame + exactly the defined operations; constants identical *)
   implb (hugr_all op_loaded (w_h0 w)) (hugr_all (op_clean reg) (w_h1 w)) &&   (* no resolvable opaque type remains *)
   hugr_eqb (w_h1 w) (w_h2 w) &&                                 (* idempotent *)
   implb cons (match w_doc0 w, w_doc1 w with                     (* the document *)
